@@ -267,6 +267,19 @@ def run(ctx):
             ok = is_local_op(t0['args'][0]) and (t0['args'][0]['l'] == 1 or any((org[0] == 'param' and org[1] == 1) or (org[0] == 'place' and org[1]['l'] == 1) or (isinstance(org[1], dict) and org[1].get('k') == 'assign' and org[1]['rv']['k'] == 'ref' and org[1]['rv']['pl']['l'] == 1) for org in origins(b, t0['args'][0])))
         C.check(ok, 'C18-SIB-fromstr', '%s|from_str-is-from_bytes-of-the-unchanged-text' % ty, 'FromStr for %s does more than from_bytes(input.as_bytes()) (%s): texts that are not exactly the text of an item convert' % (ty, [c.rsplit('::', 1)[-1] for c in cs]),
                 '%s:%d' % (b.file, b.line), sample={'type': ty, 'callees': [c.rsplit('::', 1)[-1] for c in cs]})
+    # lookups are functions of their arguments: the specification crate keeps no state between calls (a cache keyed by less than all
+    # arguments returns the answer of an earlier call)
+    C.rule('C18-WHO-pure', 'no body of autosar-data-specification touches interior-mutable or global mutable state (atomics, cells, locks, once-cells, thread locals): every lookup result depends on the arguments and the constant tables only')
+    impure = []
+    for b_ in P.bodies.values():
+        if b_.crate != 'autosar_data_specification':
+            continue
+        for pos, t in b_.iter_calls():
+            c = (callee_of(t) or '') + ' ' + ((t['f'].get('fn') or '') if isinstance(t['f'], dict) else '')
+            if re.search(r'sync::atomic::|cell::(Cell|RefCell|UnsafeCell|OnceCell)|sync::(Mutex|RwLock|OnceLock|LazyLock|Once)\b|thread::local|LocalKey', c):
+                impure.append((b_.short, b_.where(pos), c.split()[0].rsplit('::', 2)[-2:]))
+    C.check(not impure, 'C18-WHO-pure', 'specification-crate-keeps-no-state', 'the specification crate reads or writes mutable global state (%s): the result of a lookup can depend on earlier calls (a cached answer for another version)' % ', '.join('%s in %s' % ('::'.join(x[2]), x[0]) for x in impure[:3]),
+            impure[0][1] if impure else '', sample={'bodies_scanned': len([1 for b_ in P.bodies.values() if b_.crate == 'autosar_data_specification']), 'stateful_calls': len(impure)})
     # the same for the version label: every text comparison of AutosarVersion::from_str compares the argument itself
     b = P.find('<AutosarVersion as FromStr>::from_str')
     if b is None:
